@@ -449,23 +449,32 @@ fn pretty_print(output: TokenStream) -> String {
 
 fn pretty_print_rustfmt(tokens: TokenStream) -> String {
     let value = tokens.to_string();
+    // Use the unformatted code if rustfmt is not available or fails for any reason.
     // TODO: Return errors?
-    if let Ok(mut proc) = Command::new("rustfmt")
+    format_with_rustfmt(&value).unwrap_or(value)
+}
+
+fn format_with_rustfmt(value: &str) -> Option<String> {
+    let mut proc = Command::new("rustfmt")
         .arg("--emit=stdout")
         .stdin(Stdio::piped())
         .stdout(Stdio::piped())
         .stderr(Stdio::null())
         .spawn()
-    {
-        let stdin = proc.stdin.as_mut().unwrap();
-        stdin.write_all(value.as_bytes()).unwrap();
+        .ok()?;
 
-        let output = proc.wait_with_output().unwrap();
-        if output.status.success() {
-            return String::from_utf8(output.stdout).unwrap();
-        }
+    // The process may exit without reading all of its input.
+    let write_result = proc.stdin.take()?.write_all(value.as_bytes());
+
+    // Always wait for the process to avoid leaving a zombie process.
+    let output = proc.wait_with_output().ok()?;
+    write_result.ok()?;
+
+    if output.status.success() && !output.stdout.is_empty() {
+        String::from_utf8(output.stdout).ok()
+    } else {
+        None
     }
-    value.to_string()
 }
 
 fn indexed_name_to_ident(name: &str, index: u32) -> Ident {
